@@ -20,6 +20,7 @@ sys.path.insert(0, os.path.join(os.path.dirname(os.path.abspath(__file__)), ".."
 import vlib, shimlib
 from shimlib import ERRNO
 
+KEY_EEXIST = "flush/mktemp-collision-EEXIST/descriptor-and-temp-file-leak"
 KEY_FDOPEN = "flush/fdopen-failure/temp-file-and-descriptor-leak"
 
 # fragment index -> (relative path, directory)
@@ -239,7 +240,7 @@ def main():
     ]
     chk.assumptions += [
         "kill = SIGKILL of the process, not loss of power: unwritten page-cache data persist, stdio buffers are lost",
-        "temporary names chosen by mktemp are distinct from each other and from every fragment name (scen_ok); the EEXIST retry loop of _GD_MakeTempFile is not modelled",
+        "temporary names chosen by mktemp are distinct from each other and from every fragment name (scen_ok); the EEXIST retry loop of _GD_MakeTempFile is covered by eexist_retry_transparent and by injecting EEXIST at every exclusive creation",
         "only one call fails per operation (single-fault schedules); the retry runs with no fault",
         "the reader that had the dirfile open before keeps its metadata in memory; it is observed at every call boundary of one scenario",
     ]
@@ -464,6 +465,9 @@ def main():
         for k in range(sc.n):
             for en in errnos:
                 fjobs.append((sc, k, en))
+            c = sc.calls[k]
+            if c.name == "openat" and (c.arg & O_CREAT_EXCL) == O_CREAT_EXCL:
+                fjobs.append((sc, k, "EEXIST"))      # the name mktemp produced is taken: _GD_MakeTempFile retries
     fres = list(pool.map(fault_job, fjobs))
     for sc, k, en, rc, h, calls, fin, mid, raw in fres:
         counts["fault_runs"] += 1
@@ -478,6 +482,18 @@ def main():
         first, retry = h["first"], h["retry"]
         cls_mid, tm_mid = classify_files(sc, mid, sc.old, sc.new)
         cls_fin, tm_fin = classify_files(sc, fin, sc.old, sc.new)
+        if en == "EEXIST":
+            counts["eexist_retries"] = counts.get("eexist_retries", 0) + 1
+            toks, _, _ = tokens([c for c in calls if c.note != "INJECT"], sc)
+            nontriv.add((sc.sid, "eexist", k))
+            if first["ret"] != 0 or cls_mid != ["N"] * len(cls_mid) or tm_mid:
+                spec_fail(sc, KEY_EEXIST, "%s with the temporary name of call %d taken (EEXIST): ret=%s files=%s, %d temporary files left %s... (expected a retry with another name and success)" % (
+                    sc.op, k, first["ret"], cls_mid, len(tm_mid), sorted(tm_mid)[:3]), dict(extra, output=extra["output"][-300:]))
+            elif len([c for c in calls if c.name == "openat" and (c.arg & O_CREAT_EXCL) == O_CREAT_EXCL]) != len(sc.frs) + 1:
+                model_fail(sc, "%s: EEXIST at call %d: expected exactly one extra exclusive creation" % (sc.op, k), extra)
+            elif merge_writes(toks) != merge_writes(model[(sc.sid, -1)]["trace"]):
+                model_fail(sc, "%s: EEXIST at call %d: apart from the failed creation the trace must be the success path (eexist_retry_transparent): real %s" % (sc.op, k, merge_writes(toks)), extra)
+            continue
         toks, idxs, _ = tokens(calls, sc)
         nontriv.add((sc.sid, "fault", tuple(merge_writes(toks)), first["ret"] != 0, tuple(cls_mid)))
         is_fdopen = (call.name == "fcntl")
